@@ -107,6 +107,20 @@ var c16Doc struct {
 // proposer entry of VerifC16_V1Decode: it delivers what the real decoder
 // delivers for that document (the native replay runs the real decoder).
 func VerifStub_json_Unmarshal(data []byte, v any) error {
+	if string(data) == "wire" {
+		// round trip of VerifC10_V1RoundTrip: what json.Marshal was handed comes back
+		switch d := v.(type) {
+		case *proposerConfigJSON:
+			*d = *(c10Wire.(*proposerConfigJSON))
+		case *builderConfigJSON:
+			*d = *(c10Wire.(*builderConfigJSON))
+		case *executionConfigJSON:
+			*d = *(c10Wire.(*executionConfigJSON))
+		default:
+			return errors.New("target outside the catalogue")
+		}
+		return nil
+	}
 	if string(data) != c16Doc.text {
 		return errors.New("document outside the catalogue")
 	}
@@ -179,4 +193,61 @@ func VerifC16_V1Decode() {
 	if err == nil {
 		vnd.Assert(len(got.Relays) == map[int]int{0: 0, 1: 0, 2: 1}[c16Doc.builder], "C16.v1decode.relays-of-the-decoded-entry")
 	}
+}
+
+// ---------------------------------------------------------------------------
+// marshal / unmarshal round trip of the legacy objects
+
+var c10Wire any
+
+// VerifStub_json_Marshal: the wire struct handed to json.Marshal is what
+// json.Unmarshal delivers (the JSON text itself is not modelled; native replay
+// runs the real codec).
+func VerifStub_json_Marshal(v any) ([]byte, error) {
+	c10Wire = v
+	return []byte("wire"), nil
+}
+
+// VerifC10_V1RoundTrip: each legacy object survives MarshalJSON followed by
+// UnmarshalJSON with the same meaning: fee recipient, gas limit (0 = not set),
+// builder enabled flag, grace (whole ms) and relays; the per-validator map keeps
+// its keys.
+func VerifC10_V1RoundTrip() {
+	fee := bellatrix.ExecutionAddress{1, 2, 3, 4, 5, 6, 7, 8, 9, 10, 11, 12, 13, 14, 15, 16, 17, 18, 19, 20}
+	switch vnd.Choose("object", 3) {
+	case 0:
+		ms := vnd.U64("grace.ms")
+		vnd.Assume(ms < 1<<40)
+		in := &BuilderConfig{Enabled: vnd.Bool("enabled"), Grace: time.Duration(ms) * time.Millisecond, Relays: []string{"https://r1.example"}[:vnd.IntRange("relays", 0, 1)]}
+		vnd.Assume(!in.Enabled || len(in.Relays) > 0) // an enabled builder without relays is not a valid configuration
+		doc, err := in.MarshalJSON()
+		vnd.Assert(err == nil, "C10.v1roundtrip.marshal")
+		out := &BuilderConfig{}
+		vnd.Assert(out.UnmarshalJSON(doc) == nil, "C10.v1roundtrip.unmarshal")
+		vnd.Assert(out.Enabled == in.Enabled && out.Grace == in.Grace && len(out.Relays) == len(in.Relays), "C10.v1roundtrip.builder-entry-same-meaning")
+	case 1:
+		in := &ProposerConfig{FeeRecipient: fee, GasLimit: vnd.U64("gas")}
+		if vnd.Bool("builder.present") {
+			in.Builder = &BuilderConfig{Enabled: true, Relays: []string{"https://r1.example"}}
+		}
+		doc, err := in.MarshalJSON()
+		vnd.Assert(err == nil, "C10.v1roundtrip.marshal")
+		out := &ProposerConfig{}
+		vnd.Assert(out.UnmarshalJSON(doc) == nil, "C10.v1roundtrip.unmarshal")
+		vnd.Assert(out.FeeRecipient == in.FeeRecipient && out.GasLimit == in.GasLimit && (out.Builder == nil) == (in.Builder == nil), "C10.v1roundtrip.proposer-entry-same-meaning")
+	case 2:
+		in := &ExecutionConfig{DefaultConfig: &ProposerConfig{FeeRecipient: fee}, ProposerConfigs: map[phase0.BLSPubKey]*ProposerConfig{}}
+		if vnd.Bool("specific.present") {
+			in.ProposerConfigs[phase0.BLSPubKey{0xaa, 0xbb}] = &ProposerConfig{FeeRecipient: fee, GasLimit: 5}
+		}
+		doc, err := in.MarshalJSON()
+		vnd.Assert(err == nil, "C10.v1roundtrip.marshal")
+		out := &ExecutionConfig{}
+		vnd.Assert(out.UnmarshalJSON(doc) == nil, "C10.v1roundtrip.unmarshal")
+		vnd.Assert(out.DefaultConfig == in.DefaultConfig && len(out.ProposerConfigs) == len(in.ProposerConfigs), "C10.v1roundtrip.configuration-same-meaning")
+		if len(in.ProposerConfigs) == 1 {
+			vnd.Assert(out.ProposerConfigs[phase0.BLSPubKey{0xaa, 0xbb}] == in.ProposerConfigs[phase0.BLSPubKey{0xaa, 0xbb}], "C10.v1roundtrip.per-validator-entry-keeps-its-key")
+		}
+	}
+	vnd.Cover("C10.v1roundtrip.checked")
 }
